@@ -50,7 +50,7 @@ Reasons(r) ==
     \cup (IF HasCons(U, r.rule) \/ ~(VarDisjoint(U, r.rule) /\ FieldsUnique(T, FieldsUsed(U, r.rule))) THEN {}
           ELSE IF \A n \in N : (n \in hits) = Sem(U, T, tree.pv, r.rule, n) THEN {}
           ELSE {<<"C05", "sem">>})
-    \cup (IF HasNthOfWithVars(U, r.rule) \/ ~OracleAgrees(U0, tree) THEN {}
+    \cup (IF ~OracleAgrees(U0, tree) THEN {}
           ELSE IF \A n \in N : LET c == Eval("clean", U, T, r.rule, n, EmptyEnv) IN
                                (n \in hits) = c.ok /\ (c.ok => EnvEq(c.env, EnvOf(r, n))) THEN {}
           ELSE {<<"C04", "clean">>})
